@@ -64,6 +64,9 @@ CHECKS = {
  "C20": entry(
    "Theorems over an interleaving model of the per-user JSON cache protocol, for any number of processes and every merge of their step lists: with the (repaired) atomic store / tolerant load no load ever sees a partial file, nobody crashes and every run finishes, and a successful lookup returns only an artefact stored for the same key with matching mtimes and flags; the pre-fix protocol's two failure modes are kept as decide-checked witnesses. Tied to the real load/store functions by a step-token scheduler and to real concurrent isoquant.py processes.",
    COMMON_NOTE + "json and os.replace atomicity are assumed externals (laws checked at run time). See docs/C20.md.", "§7 C20, docs/C20.md"),
+ "C01": entry(
+   "Partial by design: theorems over a model of the assigner (profiles, match_consistent, nucleotide-score resolution, read-end and polyA verification, classify_assignment over regenerated event tables, the whole inconsistent path, assign_to_isoform) with the junction comparator's event lists as a quantified input: classification is sound for all event sets and the tables partition; every isoform reported by the consistent path is structurally compatible with the read (declarative Compatible), uniqueness when only one isoform is compatible, full-length isoform kept under the score condition, exact introns marked; a far read goes down the inconsistent path and is consistent only if the comparator emits no major event. The remaining clauses (comparator always emits a major event for far reads; geometric-to-profile forward direction) are carried by the oracle on in-process reads and pipeline runs for the four matching presets.",
+   COMMON_NOTE + "compare_junctions is not modelled (its output is an input of the theorems; the correspondence feeds the real events). Known finding terminal_exon_misalignment_far. See docs/C01.md.", "§7 C01, docs/C01.md"),
  "C11": entry(
    "102 theorems for all inputs and all shifts k / mirror lengths L: every generated primitive and every function of the interval, profile and polyA-shift models is translation equivariant; primitives, sums, coverage/Jaccard sweeps, junction/exon conversion, preceding/following exon, both binary searches (index i <-> n-1-i) and the polyA/polyT count and shift pairs are mirror dual, with the exact condition (and witnesses) where the code is not; left/right event tables are closed under the swap (decide over regenerated tables). The relations are also evaluated on the real functions and the real assigner; whole-pipeline shift and reflection runs are search only.",
    COMMON_NOTE + "Three known findings (polyA finder offset, flanking-intron side naming, left-site-only intron shift). Reflection of split_exons/merge/truncate/profiles and the pipeline clauses are evaluated, not proved. See docs/C11.md.", "§7 C11, docs/C11.md"),
